@@ -12,3 +12,11 @@ var properties = map[string]*propSpec{
 		Quick: tierSpec{Harnesses: []harnessSpec{{Func: gp + "internal/codegen.VSmokeBad"}}},
 	},
 }
+
+func init() {
+	properties["CONC"] = &propSpec{ID: "CONC", Quick: tierSpec{Harnesses: []harnessSpec{{Func: gp + "internal/zzverif.VConcrete", Reach: []string{"concrete.end"}}}}}
+}
+
+func init() {
+	properties["SYMMOV"] = &propSpec{ID: "SYMMOV", Quick: tierSpec{Harnesses: []harnessSpec{{Func: gp + "internal/zzverif.VSymMov", Digits: 6, Reach: []string{"symmov.end"}}}}}
+}
